@@ -24,8 +24,8 @@ P = {
  "C04": ("Faithful Coq transcription of the builder and of AssignWeights with the depth-first start order as explicit argument (Model/WGraph.v, WWeights.v), run against the implementation (hooked to take the same order) on every model; "
          "theorems in Properties/C04.v: the three strategies as functions on weight maps, and the GLOBAL statement for graphs without cycles — for every depth-first start order, if assignment succeeds every node carries exactly the order-free specification Spec/GraphWeights.spec_weights (invariant of the traversal, Proofs/DagWeights.v); the decidable hypothesis (dag_check) and the specification are evaluated by the extracted model on every generated model and compared with what the implementation stored; the property's own definition (maximum tuple-hop depth as least fixed point on the model, edge rule, no placeholder) as oracle against the implementation.",
          "Not proved: graphs with tuple cycles; equality of the graph-level specification with the model-level definition (they differ exactly at K-C04-operands). Known findings K-C04-operands and K-WG-cycles delimit where the unmodified code departs from the statement; inner map orders of AssignWeights are sampled, not driven."),
- "C05": ("Same model as C04; theorems in Properties/C05.v; well-foundedness computed on the model (tuple-free cycles, constrained cycles, builder conditions, empty intersections, relations without terminal type) as oracle for the verdict under every explicit start order.",
-         "Known findings K-WG-cycles and K-C04-operands; the equivalence is proved only on the stated domain."),
+ "C05": ("Same model as C04; theorems in Properties/C05.v: the self-loop rule, refutation witnesses on cyclic models, and the EQUIVALENCE on graphs without cycles for every start order — assignment succeeds iff Spec/GraphWeights.accepts holds of every start node (operand edges present, every edge to a type/wildcard or to an accepted node with a non-empty weight map, intersections keep a common type), soundness and completeness with AssignWeights' own fuel; hypotheses and predicate are evaluated by the extracted model per run and compared with the implementation's verdict per start order; well-foundedness computed on the model (tuple-free cycles, constrained cycles, builder conditions, empty intersections, relations without terminal type) as oracle for the verdict under every explicit start order.",
+         "Not proved: the equivalence on graphs with cycles (refuted there: K-WG-cycles). Known findings K-WG-cycles and K-C04-operands."),
  "C06": ("Same model as C04: the only schedule (start order) is an argument of the model; theorems in Properties/C06.v (independence of the order of type definitions; on graphs without cycles the weights do not depend on the start order at all — both orders give the order-free specification); all outcomes of a model (explicit orders, repeated unhooked Build, permuted type definitions) compared.",
          "Inner map iteration orders and concurrency are sampled by repetition; known finding K-WG-cycles."),
  "C07": ("Coq transcription of TransformModuleFilesToModel (Model/Merge.v) over the parser model; theorems in Properties/C07.v; correspondence on generated module sets with a catalogue of injected conflicts; "
